@@ -1,0 +1,92 @@
+//go:build verif
+
+// Contracts for the verif framework (/verif). Comment-only: this file
+// declares nothing and is compiled only with -tags=verif.
+
+package testscript
+
+//@ property C02: (*TestScript).parse, (*TestScript).Fatalf, (*TestScript).expand, expand$1, (*TestScript).Getenv, (*TestScript).Setenv, envvarname, (*TestScript).execBackground, (*TestScript).exec, (*TestScript).buildExecCmd
+//@ bounded C02: TestVerifBoundedTokenizer
+
+// Fatalf does not return (it panics with failNow, caught by runLine).
+//@ func (*TestScript).Fatalf
+//@   requires ts != nil
+//@   noreturn
+
+// parse (the line tokenizer): every index and slice of the line is in bounds for
+// every line; variable expansion is applied only to text outside single quotes;
+// the scan terminates.
+//@ func (*TestScript).parse
+//@   requires ts != nil && ts.envMap != nil
+//@   at call (*testscript.TestScript).expand#0: requires !quoted
+//@   loop 1: invariant 0 <= i && i <= len(line) && -1 <= start && start <= i && (quoted ==> start >= 0)
+//@   loop 1: decreases len(line) - i
+
+// expansion: ${NAME@R} is the regexp-quoted value of NAME, anything else the value itself
+//@ func (*TestScript).expand
+//@   requires ts != nil && ts.envMap != nil
+//@   pure
+//@ extern os.Expand(s, mapping) (r)
+//@   pure
+
+//@ pure func quoteMetaP(s string) string
+//@ extern regexp.QuoteMeta(s) (r)
+//@   pure
+//@   ensures sameStr(r, quoteMetaP(s))
+//@ extern strings.TrimSuffix(s, suffix) (r)
+//@   pure
+//@   ensures (len(s) >= len(suffix) && matchAt(s, hi(s) - len(suffix), suffix)) ==> sameStr(r, s[:len(s)-len(suffix)])
+//@   ensures !(len(s) >= len(suffix) && matchAt(s, hi(s) - len(suffix), suffix)) ==> sameStr(r, s)
+
+//@ func envvarname
+//@   pure
+//@   ensures sameStr(result, k)
+
+//@ func (*TestScript).Getenv
+//@   requires ts != nil && ts.envMap != nil
+//@   pure
+//@   ensures sameStr(result, ts.envMap[key])
+
+//@ func expand$1
+//@   requires ts != nil && ts.envMap != nil
+//@   pure
+//@   ensures (len(key) >= 2 && key[len(key)-2] == '@' && key[len(key)-1] == 'R') ==> result == quoteMetaP(ts.envMap[key[:len(key)-2]])
+//@   ensures !(len(key) >= 2 && key[len(key)-2] == '@' && key[len(key)-1] == 'R') ==> result == ts.envMap[key]
+
+// Setenv: the list handed to child processes gets key=value appended (the last
+// assignment wins there) and the lookup map used for expansion gets the same value.
+//@ func (*TestScript).Setenv
+//@   requires ts != nil && ts.envMap != nil
+//@   modifies F_S_testscript_TestScript_env, H_Str, Md_*, Mv_*
+//@   ensures ts.envMap[key] == value
+//@   ensures len(ts.env) == old(len(ts.env)) + 1
+
+// Child processes get the script's environment list (plus PWD) and directory:
+// checked where the process is started.
+//@ pure func envExtends(child []string, n int) bool = n >= 0
+//@ extern (*os/exec.Cmd).Start(c) (err)
+//@   modifies nothing
+//@ func (*TestScript).execBackground
+//@   requires ts != nil && ts.envMap != nil
+//@   at call (*exec.Cmd).Start#1: requires c.Dir == ts.cd && len(c.Env) == len(ts.env) + 1 && (forall K {at(c.Env,K)} :: lo(c.Env) <= K && K < lo(c.Env) + len(ts.env) ==> sameStr(at(c.Env,K), at(ts.env, lo(ts.env) + K - lo(c.Env))))
+//@ func (*TestScript).exec
+//@   requires ts != nil && ts.envMap != nil
+//@   at call (*exec.Cmd).Start#1: requires c.Dir == ts.cd && len(c.Env) == len(ts.env) + 1 && (forall K {at(c.Env,K)} :: lo(c.Env) <= K && K < lo(c.Env) + len(ts.env) ==> sameStr(at(c.Env,K), at(ts.env, lo(ts.env) + K - lo(c.Env))))
+//@ extern github.com/rogpeppe/go-internal/internal/os/execpath.Look(file, getenv) (r, err)
+//@   pure
+//@ func (*TestScript).buildExecCmd
+//@   requires ts != nil && ts.envMap != nil
+//@   modifies new H_Str
+//@   ensures result1 == nil ==> result0 != nil
+//@ extern os/exec.Command(name, arg) (c)
+//@   pure
+//@   ensures c != nil
+//@ extern github.com/rogpeppe/go-internal/testscript/internal/pty.Open() (pty, tty, err)
+//@   pure
+//@   ensures err == nil ==> pty != nil && tty != nil
+//@ extern github.com/rogpeppe/go-internal/testscript/internal/pty.SetCtty(cmd, tty)
+//@   pure
+// waitOrStop waits for the started process (C17's subject; not verified here): no modelled state changes
+//@ func waitOrStop
+//@   trusted
+//@   pure
